@@ -1,4 +1,220 @@
-(** C01 — property theorems (statements + [exact] + [Print Assumptions] only). *)
+(** C01 — point lookups ([DB::get] / [Version::get]): property theorems (statements + [exact]
+    + [Print Assumptions] only), and evaluated examples. *)
 From RainVerif Require Import Params.
-From RainVerif.model Require Import Bytes Key Version Lsm LsmSpec DbSpec.
+From RainVerif.model Require Import Bytes Key Block Table TableSpec Version Lsm LsmSpec DbSpec.
+From RainVerif.proofs Require Import GetProofs.
 Open Scope N_scope.
+(** * Part a: the lookup path returns what a reader must see; writes update it like a map *)
+
+
+(** the point-lookup path returns what a reader at sequence [q] must see, wherever the data
+    lives; no bound on [q] is needed (the operation tag of the lookup key does not take part in
+    the order) *)
+Theorem C01_db_get_correct :
+  forall (s : lsm) (k : bytes) (q : N),
+    lsm_wf_b s = true ->
+    db_get_at s k q = visible (all_entries s) q k.
+Proof. exact db_get_correct. Qed.
+Print Assumptions C01_db_get_correct.
+
+Theorem C01_db_get_current :
+  forall (s : lsm) (k : bytes),
+    lsm_wf_b s = true -> db_get s k = visible (all_entries s) (l_seq s) k.
+Proof. exact db_get_current. Qed.
+Print Assumptions C01_db_get_current.
+
+Theorem C01_db_get_contents :
+  forall (s : lsm),
+    lsm_wf_b s = true ->
+    forall k, db_get s k = map_get k (contents (all_entries s) (l_seq s)).
+Proof. exact db_get_contents. Qed.
+Print Assumptions C01_db_get_contents.
+
+(** a write batch keeps the invariant, and afterwards every lookup agrees with the sorted-map
+    semantics of the batch *)
+Theorem C01_write_preserves_wf :
+  forall (d1fix : bool) (mfs : N) (b : list wop) (s : lsm),
+    lsm_wf_b s = true -> lsm_wf_b (lsm_step d1fix mfs s (SWrite b)) = true.
+Proof. exact write_wf. Qed.
+Print Assumptions C01_write_preserves_wf.
+
+Theorem C01_write_then_get :
+  forall (d1fix : bool) (mfs : N) (s : lsm) (b : list wop),
+    lsm_wf_b s = true ->
+    forall k, db_get (lsm_step d1fix mfs s (SWrite b)) k
+              = map_get k (map_apply (contents (all_entries s) (l_seq s)) b).
+Proof. exact C01_write_then_get_proof. Qed.
+Print Assumptions C01_write_then_get.
+
+(** ** the steps *)
+
+(** one sorted run *)
+Theorem C01_run_get_visible :
+  forall (es : list entry) (k : bytes) (q op : N),
+    sorted_entries es = true ->
+    match get_spec es (mkIKey k q op) with GFound v => Some v | _ => None end = visible es q k.
+Proof. exact run_get_visible. Qed.
+Print Assumptions C01_run_get_visible.
+
+Theorem C01_run_get_not_found_iff :
+  forall (es : list entry) (k : bytes) (q op : N),
+    sorted_entries es = true ->
+    (get_spec es (mkIKey k q op) = GNotFound <->
+     forall e, In e es -> ~ (ik_user (fst e) = k /\ ik_seq (fst e) <= q)).
+Proof. exact run_get_not_found_iff. Qed.
+Print Assumptions C01_run_get_not_found_iff.
+
+(** sources in recency order *)
+Theorem C01_sources_get_visible :
+  forall (srcs : list (list entry)) (k : bytes) (q op : N),
+    forallb sorted_entries srcs = true -> recency_ok srcs = true ->
+    match first_answer srcs (mkIKey k q op) with GFound v => Some v | _ => None end
+    = visible (concat srcs) q k.
+Proof. exact sources_get_visible. Qed.
+Print Assumptions C01_sources_get_visible.
+
+(** level 0: the selection is the recency-ordered file list restricted to the files whose
+    user-key range contains the key, and the files left out cannot answer *)
+Theorem C01_l0_selection_order :
+  forall (p : fmeta -> bool) (l : list fmeta),
+    filter p (sort_by_num_desc l) = sort_by_num_desc (filter p l).
+Proof. exact filter_sort_num. Qed.
+Print Assumptions C01_l0_selection_order.
+
+Theorem C01_l0_select :
+  forall (fe : N -> list entry) (l0 : list fmeta) (t : ikey),
+    (forall f, In f l0 -> file_bounds_ok (fe (fm_num f)) f = true) ->
+    first_answer (map (fun f => fe (fm_num f)) (overlapping_files_l0 l0 (ik_user t))) t
+    = first_answer (map (fun f => fe (fm_num f)) (sort_by_num_desc l0)) t.
+Proof. exact l0_select_answer. Qed.
+Print Assumptions C01_l0_select.
+
+(** levels >= 1: the binary search finds the first file whose largest key is not below the
+    target, and that file answers for the whole sorted run of the level *)
+Theorem C01_find_file_upper_bound :
+  forall (fs : list fmeta) (target : ikey),
+    (forall i j fi fj, (i < j)%nat -> nth_error fs i = Some fi -> nth_error fs j = Some fj ->
+                       ikey_lt (fm_large fi) (fm_large fj)) ->
+    match find_file_upper_bound fs target with
+    | None => forall f, In f fs -> ikey_ltb (fm_large f) target = true
+    | Some i =>
+        exists pre f post, fs = pre ++ f :: post /\ length pre = i /\
+          (forall g, In g pre -> ikey_ltb (fm_large g) target = true) /\
+          ikey_ltb (fm_large f) target = false
+    end.
+Proof. exact find_file_upper_bound_spec. Qed.
+Print Assumptions C01_find_file_upper_bound.
+
+Theorem C01_level_select :
+  forall (fe : N -> list entry) (fs : list fmeta) (t : ikey),
+    (forall f, In f fs -> file_bounds_ok (fe (fm_num f)) f = true) ->
+    sorted_entries (flat_map (fun f => fe (fm_num f)) fs) = true ->
+    first_answer (map (fun f => fe (fm_num f)) (overlapping_files_level fs t)) t
+    = get_spec (flat_map (fun f => fe (fm_num f)) fs) t.
+Proof. exact level_select_answer. Qed.
+Print Assumptions C01_level_select.
+
+(** the files searched by [Version::get] answer like all level-0 files newest first followed by
+    the whole level runs *)
+Theorem C01_version_sources :
+  forall (s : lsm) (t : ikey),
+    shape_ok (l_ver s) (file_entries s) = true ->
+    forallb sorted_entries (sources s) = true ->
+    first_answer (version_sources s t) t =
+    first_answer (map (fun f => file_entries s (fm_num f))
+                      (sort_by_num_desc (level_files (l_ver s) O))
+                  ++ map (level_run s) (tl (l_ver s))) t.
+Proof. exact version_sources_answer. Qed.
+Print Assumptions C01_version_sources.
+
+(** ** the invariant is needed *)
+
+(** a level-0 file with the higher number holding the older version: everything but
+    [recency_ok] holds, and the lookup returns the stale value *)
+Theorem C01_recency_needed :
+  exists s k q,
+    shape_ok (l_ver s) (file_entries s) = true /\
+    forallb sorted_entries (sources s) = true /\
+    forallb (forallb (entry_ok (l_seq s))) (sources s) = true /\
+    recency_ok (sources s) = false /\
+    lsm_wf_b s = false /\
+    db_get_at s k q <> visible (all_entries s) q k.
+Proof. exact recency_needed. Qed.
+Print Assumptions C01_recency_needed.
+
+(** a level 1 whose files are not in key order: the binary search misses the file *)
+Theorem C01_level_order_needed :
+  exists s k q,
+    recency_ok (sources s) = true /\
+    lsm_wf_b s = false /\
+    db_get_at s k q <> visible (all_entries s) q k.
+Proof. exact level_order_needed. Qed.
+Print Assumptions C01_level_order_needed.
+
+(** ** non-vacuity: [ex_state] has a memtable, an immutable memtable, two overlapping level-0
+    files, a two-file level 1 in which the versions of "b" straddle the two files, and a
+    tombstone for "d" in level 0 above a value in level 2 *)
+Example ex_state_wf : lsm_wf_b ex_state = true.
+Proof. vm_compute. reflexivity. Qed.
+
+Example ex_l0_overlap :
+  map fm_num (overlapping_files_l0 (level_files (l_ver ex_state) 0) kb) = [11; 10].
+Proof. vm_compute. reflexivity. Qed.
+
+Example ex_get_now :
+  (db_get ex_state ka, db_get ex_state kb, db_get ex_state kc, db_get ex_state kd,
+   db_get ex_state ke)
+  = (None, Some [2; 6], Some [3; 14], None, None).
+Proof. vm_compute. reflexivity. Qed.
+
+(** "a" below the deletion in the immutable memtable: the newer level-0 file answers *)
+Example ex_get_a_12 : db_get_at ex_state ka 12 = Some [1; 12].
+Proof. vm_compute. reflexivity. Qed.
+Example ex_get_a_8 : db_get_at ex_state ka 8 = Some [1; 7].
+Proof. vm_compute. reflexivity. Qed.
+Example ex_get_a_5 : db_get_at ex_state ka 5 = Some [1; 3].
+Proof. vm_compute. reflexivity. Qed.
+(** the tombstone at 9 hides the level-2 value; below it the value is visible *)
+Example ex_get_d_9 : db_get_at ex_state kd 9 = None.
+Proof. vm_compute. reflexivity. Qed.
+Example ex_get_d_8 : db_get_at ex_state kd 8 = Some [4; 1].
+Proof. vm_compute. reflexivity. Qed.
+(** "b": 6 in the first level-1 file, 4 in the second, 2 in level 2 *)
+Example ex_get_b_7 : db_get_at ex_state kb 7 = Some [2; 6].
+Proof. vm_compute. reflexivity. Qed.
+Example ex_get_b_5 : db_get_at ex_state kb 5 = Some [2; 4].
+Proof. vm_compute. reflexivity. Qed.
+Example ex_get_b_5_files :
+  map (map fm_num) (get_overlapping_files (l_ver ex_state) (mkIKey kb 5 OP_PUT))
+  = [[11; 10]; [6]; [3]; []; []; []; []].
+Proof. vm_compute. reflexivity. Qed.
+Example ex_get_b_3 : db_get_at ex_state kb 3 = Some [2; 2].
+Proof. vm_compute. reflexivity. Qed.
+Example ex_get_b_1 : db_get_at ex_state kb 1 = None.
+Proof. vm_compute. reflexivity. Qed.
+Example ex_get_all_agree :
+  forallb (fun k => forallb (fun q =>
+     match db_get_at ex_state k q, visible (all_entries ex_state) q k with
+     | Some a, Some b => forallb (fun p => fst p =? snd p) (combine a b)
+                         && Nat.eqb (length a) (length b)
+     | None, None => true
+     | _, _ => false
+     end) [0; 1; 2; 3; 4; 5; 6; 7; 8; 9; 10; 11; 12; 13; 14; 15])
+     [ka; kb; kc; kd; ke] = true.
+Proof. vm_compute. reflexivity. Qed.
+
+(** a write batch on [ex_state] *)
+Example ex_write_then_get :
+  let s' := lsm_step false 1000 ex_state (SWrite [WPut kd [9]; WDel kb; WPut ke [8]; WDel ke]) in
+  (lsm_wf_b s', db_get s' ka, db_get s' kb, db_get s' kc, db_get s' kd, db_get s' ke)
+  = (true, None, None, Some [3; 14], Some [9], None).
+Proof. vm_compute. reflexivity. Qed.
+
+Example ex_contents :
+  contents (all_entries ex_state) (l_seq ex_state) = [(kb, [2; 6]); (kc, [3; 14])].
+Proof. vm_compute. reflexivity. Qed.
+
+(** the stale read of the recency-violating state *)
+Example bad_state_stale :
+  (db_get_at bad_state ka 14, visible (all_entries bad_state) 14 ka) = (Some [1; 2], Some [1; 7]).
+Proof. vm_compute. reflexivity. Qed.
